@@ -45,8 +45,9 @@ type shardIn struct {
 	fk2    uint32
 	cnt    uint32
 	ns     int
-	tags   [4]int32
-	stag   string
+	tags   [format.MaxTags]int32
+	stags  [format.MaxTags]string
+	emitKey bool
 	ts     uint32
 	fk2ts  uint32
 }
@@ -80,8 +81,8 @@ func agentFor(ns int, cnt uint32) *agent.Agent {
 
 func (in *shardIn) key(ts uint32) *data_model.Key {
 	k := &data_model.Key{Timestamp: ts, Metric: in.km}
-	copy(k.Tags[:], in.tags[:])
-	k.STags[5] = in.stag
+	k.Tags = in.tags
+	k.STags = in.stags
 	return k
 }
 
@@ -136,7 +137,30 @@ func b2i(b bool) int {
 	return 0
 }
 
+// the bytes Key.XXHash hashes: MarshalAppend output without its first four bytes
+func doKey(in *shardIn) {
+	k := in.key(in.ts)
+	scr, _ := k.XXHash(nil)
+	tags := make([]int32, len(k.Tags))
+	copy(tags, k.Tags[:])
+	st := make([]string, len(k.STags))
+	for i, s := range k.STags {
+		st[i] = verifx.Hex([]byte(s))
+	}
+	h.Op("key %d %d %s %s", k.Timestamp, k.Metric, verifx.List(tags), strings.Join(st, ","))
+	h.Obs("m=%s in=%s", verifx.Hex(scr), verifx.Hex(scr[4:]))
+	h.Stat("key.marshalled", 1)
+	k2 := in.key(in.ts ^ 0x5a5a5a5a)
+	scr2, _ := k2.XXHash(nil)
+	if !bytes.Equal(scr[4:], scr2[4:]) {
+		h.Viol("hash-input-depends-on-timestamp", "bytes hashed for ts %d: %x, for ts %d: %x", k.Timestamp, scr[4:], k2.Timestamp, scr2[4:])
+	}
+}
+
 func doShard(in *shardIn, r *verifx.Rng) {
+	if in.emitKey {
+		doKey(in)
+	}
 	o := evalShard(in, in.ts)
 	h.Op("shard %d %s %d %d %d %d %d %d %d", in.fk, strategies[in.st].tok, in.num, in.mid, in.km, in.fk2, in.cnt, in.ns, o.hash)
 	h.Obs("raw=%s agent=%s api=%s", o.raw, o.ag, o.api)
@@ -245,12 +269,26 @@ func randShard(r *verifx.Rng) *shardIn {
 	if r.Chance(1, 10) {
 		in.km = int32(uint32(r.U64()))
 	}
-	for i := range in.tags {
-		in.tags[i] = int32(r.Intn(1000))
+	nt := r.Intn(20)
+	if r.Chance(1, 5) {
+		nt = format.MaxTags - r.Intn(3)
 	}
-	if r.Bool() {
-		in.stag = fmt.Sprintf("s%d", r.Intn(100))
+	for i := 0; i < nt; i++ {
+		switch r.Pick(4, 2, 1) {
+		case 0:
+			in.tags[i] = int32(r.Intn(1000))
+		case 1:
+			in.tags[i] = 0
+		default:
+			in.tags[i] = int32(uint32(r.U64()))
+		}
 	}
+	for i := r.Intn(17); i > 0; i-- { // string tags anywhere, empty ones in between and at the end
+		if r.Chance(2, 3) {
+			in.stags[r.Intn(format.MaxTags)] = string(r.Bytes(r.Range(1, 5)))
+		}
+	}
+	in.emitKey = true
 	in.ts = uint32(r.U64())
 	in.fk2ts = uint32(r.U64())
 	return in
